@@ -162,8 +162,14 @@ def apply(c, op):
 
 
 def run_case(case):
-    c = circ.build(SEEDS[case["seed"]])
-    removed_pins = set(SEEDS[case["seed"]].get("removed_pins", []))  # pins the (earlier) caller removed
+    if "seed_cd" in case:   # an explicit start state (replay of a verifier counter-model)
+        c = circ.build(case["seed_cd"])
+        removed_pins = set(case.get("removed_pins", []))
+        if spec.wired_violations(c, removed_pins=removed_pins):
+            return {"nontrivial": False, "failures": []}
+    else:
+        c = circ.build(SEEDS[case["seed"]])
+        removed_pins = set(SEEDS[case["seed"]].get("removed_pins", []))  # pins the (earlier) caller removed
     assert not spec.wired_violations(c, removed_pins=removed_pins)
     fails = []
     n_ok = n_rej = 0
